@@ -90,8 +90,11 @@ class _FuseReluClipBase(RewriteRuleClassBase, abc.ABC):
             MatchResult:
                 Success if we need to replace the pattern, Failure otherwise.
         """
-        del context  # Unused
         check_result = MatchResult()
+
+        if context.model.opset_imports.get("", 0) < 11:
+            # Before opset 11, Clip takes min and max as attributes (and has a single input).
+            return check_result.fail("Clip takes min and max as inputs only since opset 11.")
 
         # Check if Clip min/max are not graph inputs and are constant values
         clip_min_max = []
